@@ -19,7 +19,7 @@ from vt.checks.c20 import run_textx
 from vt.gen import grammar as G
 from vt.gen import inputs as I
 from vt.harness import Outcome
-from vt.ref import peg
+from vt.ref import engine, peg
 
 ID = "C22"
 LEVEL = "exploration"
@@ -126,14 +126,27 @@ def evaluate(case):
             rres, _ = peg.parse(g, cfg, vtext)
             if t.mode != global_mode:
                 nt = nt or has_mod
+            def cache_sfx(expect_ok, same_as_base=False):
+                """'/engine:comment_cache' when the disagreement disappears once the engine remembers nothing about
+                comments (recorded finding F-C01d: comment positions cached across whitespace modes), else ''"""
+                if not g.get("comment"):
+                    return ""
+                with engine.no_comment_cache():
+                    g2 = run_textx(mm, vtext)
+                if (g2[0] == "ok") != expect_ok:
+                    return ""
+                if expect_ok and same_as_base and D.diff(g2[1], base[1]):
+                    return ""
+                return "/engine:comment_cache"
+
             if meta:
                 out.cls("metamorphic_insertion")
                 if got[0] != "ok":
-                    out.add("metamorphic/rejected_after_insertion", ctx + f": {got[1]}")
+                    out.add("metamorphic/rejected_after_insertion" + cache_sfx(True, True), ctx + f": {got[1]}")
                     continue
                 if D.diff(got[1], base[1]):
                     d2 = D.diff(got[1], base[1])
-                    out.add("metamorphic/model_changed", ctx + f" at {d2[1]}: {d2[2]}")
+                    out.add("metamorphic/model_changed" + cache_sfx(True, True), ctx + f" at {d2[1]}: {d2[2]}")
                     continue
             else:
                 out.cls("differential_insertion")
@@ -141,9 +154,9 @@ def evaluate(case):
                 continue
             if rres[0] == "syntax":
                 if got[0] == "ok":
-                    out.add("differential/accepts_reference_rejects", ctx)
+                    out.add("differential/accepts_reference_rejects" + cache_sfx(False), ctx)
             elif got[0] != "ok":
-                out.add("differential/rejects_reference_accepts", ctx + f": {got[1]}")
+                out.add("differential/rejects_reference_accepts" + cache_sfx(True), ctx + f": {got[1]}")
             elif rres[1] is not None:
                 df = c01.ref_diff(g, cfg, vtext, got[1], rres[1])
                 if df and df[0] == "new":
